@@ -125,6 +125,8 @@ def lv(x):
     if k == "ref":
         return x["n"]
     if k == "mem":
+        if not x["f"]:
+            return lv(x["b"])  # anonymous struct/union member
         return lv(x["b"]) + ("->" if x["arrow"] else ".") + x["f"]
     if k == "idx":
         return lv(x["b"]) + "[" + show(x["i"]) + "]"
@@ -174,6 +176,8 @@ def show(x, depth=0):
     if k == "str":
         return json.dumps(x["v"])
     if k == "mem":
+        if not x["f"]:
+            return show(x["b"], d)
         return show(x["b"], d) + ("->" if x["arrow"] else ".") + x["f"]
     if k == "un":
         op = x["op"]
@@ -335,12 +339,43 @@ class CFG:
         self.blocks = {b["id"]: Block(b) for b in raw["blocks"]}
         self._dom = None
         self._pdom = None
+        self.one_trip = []
+        self._rewire_one_trip()
         # live predecessor lists
         self.lpreds = defaultdict(list)
         for b in self.blocks.values():
             for s in b.live_succs():
                 self.lpreds[s].append(b.id)
         self._reach = None
+
+    def _rewire_one_trip(self):
+        """nifty.h's with()/if_with() expand to `for (decl, *__epN = (void*)1; __epN [&& cond]; __epN = 0)`:
+        a block that runs exactly once.  The test block's false edge is dead on entry (the guard is 1) and
+        the increment block leaves the construct (the guard is 0), so the construct is not a loop."""
+        import re
+        for blk in self.blocks.values():
+            if len(blk.succs) != 2 or not blk.elems:
+                continue
+            last = blk.elems[-1]["x"]
+            if not (isinstance(last, dict) and last.get("k") == "ref" and re.fullmatch(r"__ep\d+", last.get("n", ""))):
+                continue
+            guard = last["n"]
+            out = blk.succs[1]
+            if out is None:
+                continue
+            incs = []
+            for b2 in self.blocks.values():
+                for e in b2.elems:
+                    x = e["x"]
+                    if isinstance(x, dict) and x.get("k") == "bin" and x["op"] == "=" and isinstance(x["l"], dict) \
+                            and x["l"].get("k") == "ref" and x["l"].get("n") == guard and is_int(x["r"], 0):
+                        incs.append(b2)
+            if not incs:
+                continue
+            blk.dead.add(1)
+            for b2 in incs:
+                b2.succs = [out if s == blk.id else s for s in b2.succs]
+            self.one_trip.append((blk.id, guard))
 
     # -- element access ---------------------------------------------------
     def elem(self, b, i):
